@@ -211,6 +211,7 @@ type Exec struct {
 	ords    map[string]int
 	threads []*Thread
 	cleanup []func()
+	quiescent []func()
 	arrive  int64
 	epoch   int64 // decision points taken so far (quiescence epoch of arriving frames)
 	res     explore.Result
@@ -267,6 +268,15 @@ func (x *Exec) Count(k string, n int) {
 
 // OnCleanup registers a function run (LIFO) after Final.
 func (x *Exec) OnCleanup(f func()) { x.cleanup = append(x.cleanup, f) }
+
+// OnQuiescent registers a function run at every quiescent point of a
+// controlled (not Free) execution, right after synctest.Wait: no goroutine of
+// the bubble is running, so f may read client state (state oracles).
+func (x *Exec) OnQuiescent(f func()) {
+	x.mu.Lock()
+	x.quiescent = append(x.quiescent, f)
+	x.mu.Unlock()
+}
 
 // Choose is a scenario-owned choice among n alternatives, all of cost 0: the
 // explorer enumerates every one of them at every deviation level (used to
@@ -969,6 +979,12 @@ func (x *Exec) run() {
 	steps := 0
 	for {
 		synctest.Wait()
+		x.mu.Lock()
+		qs := x.quiescent
+		x.mu.Unlock()
+		for _, f := range qs {
+			f()
+		}
 		done := false
 		if sc.Done != nil {
 			done = sc.Done(x)
